@@ -40,15 +40,15 @@ type c07Held struct {
 }
 
 type c07Sub struct {
-	sc      *simClient
-	pcs     map[string]*webrtc.PeerConnection
-	held    map[string]*c07Held // observed: offered and not closed
-	closes  map[string]int      // closes received in this step
-	offers  map[string]int      // offers received in this step
-	req     map[string][]string // model: request map
-	perStr  map[string][]string // model: per-stream request overrides (while the downstream exists)
-	mheld   map[string][]string // model: stream -> sorted selected track ids
-	other   int                 // non-ice messages of other kinds received in this step
+	sc     *simClient
+	pcs    map[string]*webrtc.PeerConnection
+	held   map[string]*c07Held // observed: offered and not closed
+	closes map[string]int      // closes received in this step
+	offers map[string]int      // offers received in this step
+	req    map[string][]string // model: request map
+	perStr map[string][]string // model: per-stream request overrides (while the downstream exists)
+	mheld  map[string][]string // model: stream -> sorted selected track ids
+	other  int                 // non-ice messages of other kinds received in this step
 }
 
 type c07World struct {
@@ -61,6 +61,8 @@ type c07World struct {
 	users   map[*simClient]string
 	nstream int
 	log     []string
+	timer   bool // publish through the real pushConn (200 ms coalescing timer) instead of pushConnNow
+	pending bool // a timer may still be running
 	// stats
 	teardowns, offersSeen, closesSeen, replaced, aborts, lowSel, moves int
 }
@@ -264,6 +266,16 @@ func (w *c07World) settle() {
 	w.t.Fatalf("VERIF-HARNESS-ERROR: signalling did not settle")
 }
 
+// push announces a stream to the other members, as newUpConn/OnTrack do.
+func (w *c07World) push(up *rtpUpConnection, owner *simClient) {
+	if w.timer {
+		pushConn(up, owner.c.group, owner.c.group.GetClients(owner.c))
+		w.pending = true
+	} else {
+		pushConnNow(up, owner.c.group, owner.c.group.GetClients(owner.c))
+	}
+}
+
 func (w *c07World) endStream(st *c07Stream) {
 	st.ended = true
 	w.teardowns++
@@ -303,7 +315,9 @@ func (w *c07World) check(step string, actor *simClient, selfOnly bool) {
 		}
 		// a close is only sent for streams that ended, are not (or no longer) requested, or were aborted by the subscriber itself
 		for id, n := range sub.closes {
-			if n == 0 {
+			if n == 0 || w.timer {
+				// (with the coalescing timer, closes accumulate over a burst: a close for a stream that was not yet requested
+				// when its delayed announcement arrived is legitimate; only the final state is compared there)
 				continue
 			}
 			st := w.streams[id]
@@ -345,9 +359,24 @@ var c07Rec = verifkit.New("TestVerif_C07_SubscriptionMachine",
 func TestVerif_C07_SubscriptionMachine(t *testing.T) {
 	defer c07Rec.Flush()
 	simSetup()
-	rapid.Check(t, func(t *rapid.T) {
+	rapid.Check(t, func(t *rapid.T) { c07Machine(t, false, c07Rec) })
+}
+
+var c07tRec = verifkit.New("TestVerif_C07_PushTimer",
+	"the same machine with streams announced through the real pushConn (200 ms coalescing timer): bursts of publisher operations (publish, replace, replace again, add a track, close) "+
+		"are issued without waiting, then the harness waits out the timer and compares every subscriber's downstreams with the model's final state; "+
+		"non-trivial = burst in which a stream was replaced or closed while its own announcement was still pending; distinct by operation log")
+
+func TestVerif_C07_PushTimer(t *testing.T) {
+	defer c07tRec.Flush()
+	simSetup()
+	rapid.Check(t, func(t *rapid.T) { c07Machine(t, true, c07tRec) })
+}
+
+func c07Machine(t *rapid.T, timer bool, rec *verifkit.Rec) {
+	{
 		simCase++
-		w := &c07World{t: t, subs: map[*simClient]*c07Sub{}, streams: map[string]*c07Stream{}, where: map[*simClient]string{}, users: map[*simClient]string{}}
+		w := &c07World{t: t, timer: timer, subs: map[*simClient]*c07Sub{}, streams: map[string]*c07Stream{}, where: map[*simClient]string{}, users: map[*simClient]string{}}
 		n := rapid.IntRange(3, 5).Draw(t, "nclients")
 		w.s = newSim(n, func(k int) int { return rapid.IntRange(0, k-1).Draw(t, "sched") })
 		w.s.cheap = true
@@ -409,6 +438,10 @@ func TestVerif_C07_SubscriptionMachine(t *testing.T) {
 			return rapid.SampledFrom([][]string{{"audio", "video"}, {"audio"}, {"video"}, {"video-low"}, {"audio", "video-low"}, {}, {"bogus"}, {"video", "video-low"}, {"audio", "video", "bogus"}}).Draw(t, label)
 		}
 		steps := rapid.IntRange(4, 30).Draw(t, "steps")
+		if timer {
+			steps = rapid.IntRange(4, 14).Draw(t, "timerSteps")
+		}
+		racedPending := 0
 		for i := 0; i < steps; i++ {
 			sc := w.s.cs[rapid.IntRange(0, len(w.s.cs)-1).Draw(t, "who")]
 			if sc.closed {
@@ -427,6 +460,9 @@ func TestVerif_C07_SubscriptionMachine(t *testing.T) {
 				ops = []string{"request", "request", "request", "publish", "publish", "publish", "leave", "requestStream", "abort", "moderate"}
 				if len(myStreams) > 0 {
 					ops = append(ops, "addTrack", "replace", "close", "close")
+					if timer {
+						ops = append(ops, "replace", "replace", "replace", "replace")
+					}
 					if len(w.gnames) > 1 {
 						ops = append(ops, "raceMove", "raceMove")
 					}
@@ -584,7 +620,7 @@ func TestVerif_C07_SubscriptionMachine(t *testing.T) {
 						delete(o.mheld, replaced)
 					}
 				}
-				pushConnNow(up, sc.c.group, sc.c.group.GetClients(sc.c))
+				w.push(up, sc)
 				for _, o := range members(st.group) {
 					w.modelPush(w.subs[o], st)
 				}
@@ -605,7 +641,7 @@ func TestVerif_C07_SubscriptionMachine(t *testing.T) {
 				st.kinds = append(st.kinds, kind)
 				st.tracks = append(st.tracks, tid)
 				w.logf("%s adds a %s track to %s", sc.id, kind, st.id)
-				pushConnNow(st.up, sc.c.group, sc.c.group.GetClients(sc.c))
+				w.push(st.up, sc)
 				for _, o := range members(st.group) {
 					w.modelPush(w.subs[o], st)
 				}
@@ -699,6 +735,24 @@ func TestVerif_C07_SubscriptionMachine(t *testing.T) {
 					t.Fatalf("moderation: %v", err)
 				}
 			}
+			if timer {
+				if (op == "replace" || op == "close") && w.pending {
+					racedPending++
+				}
+				// in a burst: keep going without waiting for the timers (but always flush at the end)
+				if i < steps-1 && rapid.IntRange(0, 2).Draw(t, "burst") != 0 {
+					w.s.pump()
+					for _, o := range w.s.cs {
+						w.handle(w.subs[o])
+					}
+					continue
+				}
+				if w.pending {
+					time.Sleep(240 * time.Millisecond)
+					w.pending = false
+				}
+				selfOnly = false
+			}
 			w.settle()
 			// clients terminated by a kick are closed by the simulator
 			for _, o := range w.s.cs {
@@ -714,14 +768,20 @@ func TestVerif_C07_SubscriptionMachine(t *testing.T) {
 				nsubs++
 			}
 		}
-		c07Rec.Case(len(differentRequests) >= 2 && w.teardowns > 0, strings.Join(w.log, ";"), map[string]any{"ops": w.log, "offers": w.offersSeen, "closes": w.closesSeen, "teardowns": w.teardowns})
-		c07Rec.ClassN("offers_answered", w.offersSeen)
-		c07Rec.ClassN("closes_received", w.closesSeen)
-		c07Rec.ClassN("streams_ended", w.teardowns)
-		c07Rec.ClassN("streams_replaced", w.replaced)
-		c07Rec.ClassN("aborts", w.aborts)
-		c07Rec.ClassN("group_changes_with_a_push_still_queued", w.moves)
-	})
+		ntc := len(differentRequests) >= 2 && w.teardowns > 0
+		if timer {
+			ntc = racedPending > 0
+		}
+		rec.Case(ntc, strings.Join(w.log, ";"), map[string]any{"ops": w.log, "offers": w.offersSeen, "closes": w.closesSeen, "teardowns": w.teardowns})
+		rec.ClassN("offers_answered", w.offersSeen)
+		rec.ClassN("closes_received", w.closesSeen)
+		rec.ClassN("streams_ended", w.teardowns)
+		rec.ClassN("streams_replaced", w.replaced)
+		rec.ClassN("aborts", w.aborts)
+		rec.ClassN("group_changes_with_a_push_still_queued", w.moves)
+		rec.ClassN("replaced_or_closed_while_announcement_pending", racedPending)
+		_ = nsubs
+	}
 }
 
 var _ = conn.ErrConnectionClosed
